@@ -307,6 +307,10 @@ fn put<T>(items: &mut Vec<(&'static str, Yaml)>, key: &'static str, t: &Tri<T>, 
 }
 
 pub fn render(c: &RaCase) -> Option<String> {
+    render_named(c, "eth7")
+}
+
+pub fn render_named(c: &RaCase, ifname: &str) -> Option<String> {
     let mut top: Vec<(&str, Yaml)> = vec![];
     if let Some(d) = &c.top_dns {
         top.push((
@@ -384,7 +388,7 @@ pub fn render(c: &RaCase) -> Option<String> {
         }
         it.push(("pref64", ymap(e)));
     }
-    top.push(("router-advertisements", ymap(vec![("eth7", ymap(it))])));
+    top.push(("router-advertisements", ymap(vec![(ifname, ymap(it))])));
     let tree = ymap(top);
     let text = emit(&tree);
     // the third-party emitter must have written what we meant, or the expectation is void
@@ -551,251 +555,257 @@ impl Prop for C17Build {
                 return out;
             }
         };
-        // ---- header
-        let kinds = ra
-            .options
-            .iter()
-            .map(std::mem::discriminant)
-            .collect::<std::collections::HashSet<_>>()
-            .len();
-        out.nontrivial = kinds >= 3 || unrepresentable;
-        if ra.flags_rest != 0 {
-            out.fail("C17:reserved:ra-flags", format!("{:#x}", ra.flags_rest));
-            return out;
-        }
-        let want_hop = i.hop_limit.val().copied().unwrap_or(0);
-        if ra.hop_limit != want_hop {
-            out.fail("C17:value:hop-limit", format!("{} vs {}", ra.hop_limit, want_hop));
-            return out;
-        }
-        if ra.managed != i.managed.val().copied().unwrap_or(false) || ra.other != i.other.val().copied().unwrap_or(false) {
-            out.fail("C17:value:flags", format!("M={} O={}", ra.managed, ra.other));
-            return out;
-        }
-        let router_lifetime = match &i.lifetime {
-            Tri::Val(d) => {
-                if !check_field(&mut out, "router-lifetime", ra.lifetime as u64, d.secs, 65535, Some(9000)) {
-                    return out;
-                }
-                ra.lifetime as u64
-            }
-            _ => {
-                if ra.lifetime != c.fallback_lifetime {
-                    out.fail("C17:value:router-lifetime-default", format!("{} vs {}", ra.lifetime, c.fallback_lifetime));
-                    return out;
-                }
-                ra.lifetime as u64
-            }
-        };
-        let rs = i.reachable.val().map(|d| d.secs).unwrap_or(0);
-        if !check_field(&mut out, "reachable", ra.reachable_ms as u64, rs.saturating_mul(1000), u32::MAX as u64, Some(3_600_000)) {
-            return out;
-        }
-        let ts = i.retransmit.val().map(|d| d.secs).unwrap_or(0);
-        if !check_field(&mut out, "retransmit", ra.retrans_ms as u64, ts.saturating_mul(1000), u32::MAX as u64, None) {
-            return out;
-        }
-        // ---- options by kind
-        let lls: Vec<&Vec<u8>> = ra.options.iter().filter_map(|o| if let NdOpt::SourceLl(b) = o { Some(b) } else { None }).collect();
-        match (&c.ll, lls.as_slice()) {
-            (None, []) => {}
-            (Some(m), [b]) if b.as_slice() == m => {}
-            _ => {
-                out.fail("C17:option:source-ll", format!("{:?} vs {:?}", c.ll, lls));
-                return out;
-            }
-        }
-        let mtus: Vec<(u16, u32)> = ra.options.iter().filter_map(|o| if let NdOpt::Mtu { reserved, mtu } = o { Some((*reserved, *mtu)) } else { None }).collect();
-        match (mtu_param, mtus.as_slice()) {
-            (None, []) => {}
-            (Some(m), [(0, g)]) if *g == m => {}
-            (Some(_), [(r, _)]) if *r != 0 => {
-                out.fail("C17:reserved:mtu", format!("{:?}", mtus));
-                return out;
-            }
-            _ => {
-                out.fail("C17:option:mtu", format!("{:?} vs {:?}", mtu_param, mtus));
-                return out;
-            }
-        }
-        // prefixes, in order
-        let got_p: Vec<&NdOpt> = ra.options.iter().filter(|o| matches!(o, NdOpt::Prefix { .. })).collect();
-        let want_p: Vec<PrefixSpec> = i.prefixes.clone().unwrap_or_default();
-        if got_p.len() != want_p.len() {
-            out.fail("C17:option:prefix-count", format!("{} vs {}", got_p.len(), want_p.len()));
-            return out;
-        }
-        for (g, w) in got_p.iter().zip(want_p.iter()) {
-            if let NdOpt::Prefix { len, onlink, autonomous, flags_rest, valid, preferred, reserved2, prefix } = g {
-                if *len != w.len || *onlink != w.onlink.val().copied().unwrap_or(true) || *autonomous != w.autonomous.val().copied().unwrap_or(true) {
-                    out.fail("C17:value:prefix-flags", format!("{:?} vs {:?}", g, w));
-                    return out;
-                }
-                if *flags_rest != 0 || *reserved2 != 0 {
-                    out.fail("C17:reserved:prefix", format!("{:?}", g));
-                    return out;
-                }
-                let wv = w.valid.val().map(|d| d.secs).unwrap_or(2592000);
-                let wp = w.preferred.val().map(|d| d.secs).unwrap_or(604800);
-                if !check_field(&mut out, "prefix-valid", *valid as u64, wv, u32::MAX as u64, None) {
-                    return out;
-                }
-                if !check_field(&mut out, "prefix-preferred", *preferred as u64, wp, u32::MAX as u64, None) {
-                    return out;
-                }
-                if *prefix != mask6(&w.addr, w.len) {
-                    let sig = if *prefix == w.addr { "C17:reserved:prefix-host-bits" } else { "C17:value:prefix" };
-                    out.fail(sig, format!("configured {}/{}: on the wire {} (expected {})", w.addr, w.len, prefix, mask6(&w.addr, w.len)));
-                    return out;
-                }
-                if w.addr != mask6(&w.addr, w.len) {
-                    out.class("prefix-with-host-bits");
-                }
-            }
-        }
-        // RDNSS
-        let want_servers: Option<Vec<Ipv6Addr>> = match i.rdnss.as_ref().map(|r| &r.addresses) {
-            Some(Tri::Val(v)) => Some(v.iter().map(|a| match a { Addr6::SelfAddr => c.self6, Addr6::Ip(ip) => *ip }).collect()),
-            Some(Tri::Null) => None,
-            _ => {
-                // top-level default (which itself defaults to [$self4, $self6])
-                let top = c.top_dns.clone().unwrap_or_else(|| vec![TopDns::Self4, TopDns::Self6]);
-                Some(top.iter().filter_map(|t| match t {
-                    TopDns::Self6 => Some(c.self6),
-                    TopDns::V6(ip) => Some(if ip.is_unspecified() { c.self6 } else { *ip }),
-                    _ => None,
-                }).collect())
-            }
-        };
-        let got_r: Vec<&NdOpt> = ra.options.iter().filter(|o| matches!(o, NdOpt::Rdnss { .. })).collect();
-        match (&want_servers, got_r.as_slice()) {
-            (None, []) => {}
-            (Some(w), []) if w.is_empty() => {}
-            (Some(w), [NdOpt::Rdnss { reserved, lifetime, servers }]) => {
-                if *reserved != 0 {
-                    out.fail("C17:reserved:rdnss", "");
-                    return out;
-                }
-                if servers != w {
-                    out.fail("C17:value:rdnss-servers", format!("{:?} vs {:?}", servers, w));
-                    return out;
-                }
-                match i.rdnss.as_ref().and_then(|r| r.lifetime.val()) {
-                    Some(d) => {
-                        if !check_field(&mut out, "rdnss-lifetime", *lifetime as u64, d.secs, u32::MAX as u64, None) {
-                            return out;
-                        }
-                    }
-                    None => {
-                        // manual: interface lifetime; RFC 8106 / code: 3 x MaxRtrAdvInterval
-                        if *lifetime as u64 != 1800 && *lifetime as u64 != router_lifetime {
-                            out.fail("C17:value:rdnss-lifetime-default", format!("{}", lifetime));
-                            return out;
-                        }
-                    }
-                }
-            }
-            _ => {
-                out.fail("C17:option:rdnss", format!("expected {:?}, got {:?}", want_servers, got_r));
-                return out;
-            }
-        }
-        // DNSSL
-        let want_domains: Option<Vec<String>> = match i.dnssl.as_ref().map(|d| &d.domains) {
-            Some(Tri::Val(v)) => Some(v.clone()),
-            Some(Tri::Null) => None,
-            _ => Some(c.top_search.clone().unwrap_or_default()),
-        };
-        let got_d: Vec<&NdOpt> = ra.options.iter().filter(|o| matches!(o, NdOpt::Dnssl { .. })).collect();
-        match (&want_domains, got_d.as_slice()) {
-            (None, []) => {}
-            (Some(w), []) if w.is_empty() => {}
-            (Some(w), [NdOpt::Dnssl { reserved, lifetime, domains }]) => {
-                if *reserved != 0 {
-                    out.fail("C17:reserved:dnssl", "");
-                    return out;
-                }
-                let wl: Vec<Vec<Vec<u8>>> = w.iter().map(|d| d.split('.').map(|l| l.as_bytes().to_vec()).collect()).collect();
-                if *domains != wl {
-                    out.fail("C17:value:dnssl-domains", format!("{:?} vs {:?}", domains, w));
-                    return out;
-                }
-                match i.dnssl.as_ref().and_then(|r| r.lifetime.val()) {
-                    Some(d) => {
-                        if !check_field(&mut out, "dnssl-lifetime", *lifetime as u64, d.secs, u32::MAX as u64, None) {
-                            return out;
-                        }
-                    }
-                    None => {
-                        if *lifetime as u64 != 1800 && *lifetime as u64 != router_lifetime {
-                            out.fail("C17:value:dnssl-lifetime-default", format!("{}", lifetime));
-                            return out;
-                        }
-                    }
-                }
-            }
-            _ => {
-                out.fail("C17:option:dnssl", format!("expected {:?}, got {:?}", want_domains, got_d));
-                return out;
-            }
-        }
-        // captive portal
-        let want_url: Option<String> = match &i.captive {
-            Tri::Val(u) => Some(u.clone()),
-            Tri::Null => None,
-            Tri::Absent => c.top_captive.clone(),
-        };
-        let got_u: Vec<&Vec<u8>> = ra.options.iter().filter_map(|o| if let NdOpt::CaptivePortal(u) = o { Some(u) } else { None }).collect();
-        match (&want_url, got_u.as_slice()) {
-            (None, []) => {}
-            (Some(w), [g]) if g.as_slice() == w.as_bytes() => {}
-            _ => {
-                out.fail("C17:option:captive-portal", format!("expected {:?}, got {:?}", want_url, got_u.iter().map(|u| String::from_utf8_lossy(u).to_string()).collect::<Vec<_>>()));
-                return out;
-            }
-        }
-        // PREF64
-        let got_64: Vec<&NdOpt> = ra.options.iter().filter(|o| matches!(o, NdOpt::Pref64 { .. })).collect();
-        match (&i.pref64, got_64.as_slice()) {
-            (None, []) => {}
-            (Some(w), [NdOpt::Pref64 { scaled_lifetime, plc, prefix96 }]) => {
-                match plc_to_len(*plc) {
-                    Some(l) if l == w.len => {}
-                    other => {
-                        out.fail(
-                            "C17:value:pref64-plc",
-                            format!("configured /{}: prefix length code {} on the wire = {:?} per RFC 8781", w.len, plc, other),
-                        );
-                        return out;
-                    }
-                }
-                let secs = w.lifetime.as_ref().map(|d| d.secs).unwrap_or(600);
-                let floor = secs / 8;
-                let ceil = secs.div_ceil(8);
-                let ok: Vec<u64> = if ceil <= 8191 { vec![floor, ceil] } else if floor <= 8191 { vec![floor, 8191] } else { vec![8191] };
-                if !ok.contains(&(*scaled_lifetime as u64)) {
-                    let wrapped = floor > 8191 && *scaled_lifetime as u64 == floor % 8192;
-                    out.fail(
-                        if wrapped { "C17:wrapped:pref64-lifetime" } else { "C17:value:pref64-lifetime" },
-                        format!("configured {} s: scaled lifetime {} on the wire", secs, scaled_lifetime),
-                    );
-                    return out;
-                }
-                let want = mask6(&w.addr, w.len).octets();
-                if prefix96[..] != want[..12] {
-                    out.fail("C17:value:pref64-prefix", format!("{:02x?} vs {:02x?}", prefix96, &want[..12]));
-                    return out;
-                }
-            }
-            _ => {
-                out.fail("C17:option:pref64", format!("expected {:?}, got {:?}", i.pref64, got_64));
-                return out;
-            }
-        }
-        if ra.options.iter().any(|o| matches!(o, NdOpt::Unknown(..))) {
-            out.fail("C17:option:unknown", "an option of a kind that was not configured");
-        }
+        judge_ra(c, mtu_param, &ra, unrepresentable, &mut out);
         out
+    }
+}
+
+/// Compare a decoded RA with what the configuration says (shared by the function and wire tiers).
+pub fn judge_ra(c: &RaCase, mtu_param: Option<u32>, ra: &Ra, unrepresentable: bool, out: &mut Outcome) {
+    let i = &c.iface;
+    // ---- header
+    let kinds = ra
+        .options
+        .iter()
+        .map(std::mem::discriminant)
+        .collect::<std::collections::HashSet<_>>()
+        .len();
+    out.nontrivial = kinds >= 3 || unrepresentable;
+    if ra.flags_rest != 0 {
+        out.fail("C17:reserved:ra-flags", format!("{:#x}", ra.flags_rest));
+        return;
+    }
+    let want_hop = i.hop_limit.val().copied().unwrap_or(0);
+    if ra.hop_limit != want_hop {
+        out.fail("C17:value:hop-limit", format!("{} vs {}", ra.hop_limit, want_hop));
+        return;
+    }
+    if ra.managed != i.managed.val().copied().unwrap_or(false) || ra.other != i.other.val().copied().unwrap_or(false) {
+        out.fail("C17:value:flags", format!("M={} O={}", ra.managed, ra.other));
+        return;
+    }
+    let router_lifetime = match &i.lifetime {
+        Tri::Val(d) => {
+            if !check_field(out, "router-lifetime", ra.lifetime as u64, d.secs, 65535, Some(9000)) {
+                return;
+            }
+            ra.lifetime as u64
+        }
+        _ => {
+            if ra.lifetime != c.fallback_lifetime {
+                out.fail("C17:value:router-lifetime-default", format!("{} vs {}", ra.lifetime, c.fallback_lifetime));
+                return;
+            }
+            ra.lifetime as u64
+        }
+    };
+    let rs = i.reachable.val().map(|d| d.secs).unwrap_or(0);
+    if !check_field(out, "reachable", ra.reachable_ms as u64, rs.saturating_mul(1000), u32::MAX as u64, Some(3_600_000)) {
+        return;
+    }
+    let ts = i.retransmit.val().map(|d| d.secs).unwrap_or(0);
+    if !check_field(out, "retransmit", ra.retrans_ms as u64, ts.saturating_mul(1000), u32::MAX as u64, None) {
+        return;
+    }
+    // ---- options by kind
+    let lls: Vec<&Vec<u8>> = ra.options.iter().filter_map(|o| if let NdOpt::SourceLl(b) = o { Some(b) } else { None }).collect();
+    match (&c.ll, lls.as_slice()) {
+        (None, []) => {}
+        (Some(m), [b]) if b.as_slice() == m => {}
+        _ => {
+            out.fail("C17:option:source-ll", format!("{:?} vs {:?}", c.ll, lls));
+            return;
+        }
+    }
+    let mtus: Vec<(u16, u32)> = ra.options.iter().filter_map(|o| if let NdOpt::Mtu { reserved, mtu } = o { Some((*reserved, *mtu)) } else { None }).collect();
+    match (mtu_param, mtus.as_slice()) {
+        (None, []) => {}
+        (Some(m), [(0, g)]) if *g == m => {}
+        (Some(_), [(r, _)]) if *r != 0 => {
+            out.fail("C17:reserved:mtu", format!("{:?}", mtus));
+            return;
+        }
+        _ => {
+            out.fail("C17:option:mtu", format!("{:?} vs {:?}", mtu_param, mtus));
+            return;
+        }
+    }
+    // prefixes, in order
+    let got_p: Vec<&NdOpt> = ra.options.iter().filter(|o| matches!(o, NdOpt::Prefix { .. })).collect();
+    let want_p: Vec<PrefixSpec> = i.prefixes.clone().unwrap_or_default();
+    if got_p.len() != want_p.len() {
+        out.fail("C17:option:prefix-count", format!("{} vs {}", got_p.len(), want_p.len()));
+        return;
+    }
+    for (g, w) in got_p.iter().zip(want_p.iter()) {
+        if let NdOpt::Prefix { len, onlink, autonomous, flags_rest, valid, preferred, reserved2, prefix } = g {
+            if *len != w.len || *onlink != w.onlink.val().copied().unwrap_or(true) || *autonomous != w.autonomous.val().copied().unwrap_or(true) {
+                out.fail("C17:value:prefix-flags", format!("{:?} vs {:?}", g, w));
+                return;
+            }
+            if *flags_rest != 0 || *reserved2 != 0 {
+                out.fail("C17:reserved:prefix", format!("{:?}", g));
+                return;
+            }
+            let wv = w.valid.val().map(|d| d.secs).unwrap_or(2592000);
+            let wp = w.preferred.val().map(|d| d.secs).unwrap_or(604800);
+            if !check_field(out, "prefix-valid", *valid as u64, wv, u32::MAX as u64, None) {
+                return;
+            }
+            if !check_field(out, "prefix-preferred", *preferred as u64, wp, u32::MAX as u64, None) {
+                return;
+            }
+            if *prefix != mask6(&w.addr, w.len) {
+                let sig = if *prefix == w.addr { "C17:reserved:prefix-host-bits" } else { "C17:value:prefix" };
+                out.fail(sig, format!("configured {}/{}: on the wire {} (expected {})", w.addr, w.len, prefix, mask6(&w.addr, w.len)));
+                return;
+            }
+            if w.addr != mask6(&w.addr, w.len) {
+                out.class("prefix-with-host-bits");
+            }
+        }
+    }
+    // RDNSS
+    let want_servers: Option<Vec<Ipv6Addr>> = match i.rdnss.as_ref().map(|r| &r.addresses) {
+        Some(Tri::Val(v)) => Some(v.iter().map(|a| match a { Addr6::SelfAddr => c.self6, Addr6::Ip(ip) => *ip }).collect()),
+        Some(Tri::Null) => None,
+        _ => {
+            // top-level default (which itself defaults to [$self4, $self6])
+            let top = c.top_dns.clone().unwrap_or_else(|| vec![TopDns::Self4, TopDns::Self6]);
+            Some(top.iter().filter_map(|t| match t {
+                TopDns::Self6 => Some(c.self6),
+                TopDns::V6(ip) => Some(if ip.is_unspecified() { c.self6 } else { *ip }),
+                _ => None,
+            }).collect())
+        }
+    };
+    let got_r: Vec<&NdOpt> = ra.options.iter().filter(|o| matches!(o, NdOpt::Rdnss { .. })).collect();
+    match (&want_servers, got_r.as_slice()) {
+        (None, []) => {}
+        (Some(w), []) if w.is_empty() => {}
+        (Some(w), [NdOpt::Rdnss { reserved, lifetime, servers }]) => {
+            if *reserved != 0 {
+                out.fail("C17:reserved:rdnss", "");
+                return;
+            }
+            if servers != w {
+                out.fail("C17:value:rdnss-servers", format!("{:?} vs {:?}", servers, w));
+                return;
+            }
+            match i.rdnss.as_ref().and_then(|r| r.lifetime.val()) {
+                Some(d) => {
+                    if !check_field(out, "rdnss-lifetime", *lifetime as u64, d.secs, u32::MAX as u64, None) {
+                        return;
+                    }
+                }
+                None => {
+                    // manual: interface lifetime; RFC 8106 / code: 3 x MaxRtrAdvInterval
+                    if *lifetime as u64 != 1800 && *lifetime as u64 != router_lifetime {
+                        out.fail("C17:value:rdnss-lifetime-default", format!("{}", lifetime));
+                        return;
+                    }
+                }
+            }
+        }
+        _ => {
+            out.fail("C17:option:rdnss", format!("expected {:?}, got {:?}", want_servers, got_r));
+            return;
+        }
+    }
+    // DNSSL
+    let want_domains: Option<Vec<String>> = match i.dnssl.as_ref().map(|d| &d.domains) {
+        Some(Tri::Val(v)) => Some(v.clone()),
+        Some(Tri::Null) => None,
+        _ => Some(c.top_search.clone().unwrap_or_default()),
+    };
+    let got_d: Vec<&NdOpt> = ra.options.iter().filter(|o| matches!(o, NdOpt::Dnssl { .. })).collect();
+    match (&want_domains, got_d.as_slice()) {
+        (None, []) => {}
+        (Some(w), []) if w.is_empty() => {}
+        (Some(w), [NdOpt::Dnssl { reserved, lifetime, domains }]) => {
+            if *reserved != 0 {
+                out.fail("C17:reserved:dnssl", "");
+                return;
+            }
+            let wl: Vec<Vec<Vec<u8>>> = w.iter().map(|d| d.split('.').map(|l| l.as_bytes().to_vec()).collect()).collect();
+            if *domains != wl {
+                out.fail("C17:value:dnssl-domains", format!("{:?} vs {:?}", domains, w));
+                return;
+            }
+            match i.dnssl.as_ref().and_then(|r| r.lifetime.val()) {
+                Some(d) => {
+                    if !check_field(out, "dnssl-lifetime", *lifetime as u64, d.secs, u32::MAX as u64, None) {
+                        return;
+                    }
+                }
+                None => {
+                    if *lifetime as u64 != 1800 && *lifetime as u64 != router_lifetime {
+                        out.fail("C17:value:dnssl-lifetime-default", format!("{}", lifetime));
+                        return;
+                    }
+                }
+            }
+        }
+        _ => {
+            out.fail("C17:option:dnssl", format!("expected {:?}, got {:?}", want_domains, got_d));
+            return;
+        }
+    }
+    // captive portal
+    let want_url: Option<String> = match &i.captive {
+        Tri::Val(u) => Some(u.clone()),
+        Tri::Null => None,
+        Tri::Absent => c.top_captive.clone(),
+    };
+    let got_u: Vec<&Vec<u8>> = ra.options.iter().filter_map(|o| if let NdOpt::CaptivePortal(u) = o { Some(u) } else { None }).collect();
+    match (&want_url, got_u.as_slice()) {
+        (None, []) => {}
+        (Some(w), [g]) if g.as_slice() == w.as_bytes() => {}
+        _ => {
+            out.fail("C17:option:captive-portal", format!("expected {:?}, got {:?}", want_url, got_u.iter().map(|u| String::from_utf8_lossy(u).to_string()).collect::<Vec<_>>()));
+            return;
+        }
+    }
+    // PREF64
+    let got_64: Vec<&NdOpt> = ra.options.iter().filter(|o| matches!(o, NdOpt::Pref64 { .. })).collect();
+    match (&i.pref64, got_64.as_slice()) {
+        (None, []) => {}
+        (Some(w), [NdOpt::Pref64 { scaled_lifetime, plc, prefix96 }]) => {
+            match plc_to_len(*plc) {
+                Some(l) if l == w.len => {}
+                other => {
+                    out.fail(
+                        "C17:value:pref64-plc",
+                        format!("configured /{}: prefix length code {} on the wire = {:?} per RFC 8781", w.len, plc, other),
+                    );
+                    return;
+                }
+            }
+            let secs = w.lifetime.as_ref().map(|d| d.secs).unwrap_or(600);
+            let floor = secs / 8;
+            let ceil = secs.div_ceil(8);
+            let ok: Vec<u64> = if ceil <= 8191 { vec![floor, ceil] } else if floor <= 8191 { vec![floor, 8191] } else { vec![8191] };
+            if !ok.contains(&(*scaled_lifetime as u64)) {
+                let wrapped = floor > 8191 && *scaled_lifetime as u64 == floor % 8192;
+                out.fail(
+                    if wrapped { "C17:wrapped:pref64-lifetime" } else { "C17:value:pref64-lifetime" },
+                    format!("configured {} s: scaled lifetime {} on the wire", secs, scaled_lifetime),
+                );
+                return;
+            }
+            let want = mask6(&w.addr, w.len).octets();
+            if prefix96[..] != want[..12] {
+                out.fail("C17:value:pref64-prefix", format!("{:02x?} vs {:02x?}", prefix96, &want[..12]));
+                return;
+            }
+        }
+        _ => {
+            out.fail("C17:option:pref64", format!("expected {:?}, got {:?}", i.pref64, got_64));
+            return;
+        }
+    }
+    if ra.options.iter().any(|o| matches!(o, NdOpt::Unknown(..))) {
+        out.fail("C17:option:unknown", "an option of a kind that was not configured");
     }
 }
 
